@@ -832,28 +832,28 @@ Proof.
 Qed.
 
 (* ---------- the receiving handler *)
-Lemma handle_passthrough sets timeout rules cv :
-  new_conn timeout rules (c_remote cv) = None -> handle_with sets timeout rules cv = HPass cv.
+Lemma handle_passthrough sets real timeout rules cv :
+  new_conn timeout rules (c_remote cv) = None -> handle_with sets real timeout rules cv = HPass cv.
 Proof. intro H. unfold handle_with. rewrite H. reflexivity. Qed.
 
-Definition accepted_view (sets : bool) (cv : cview) (h : hdr) (rest : list byte) : cview :=
-  let r := override (h_src h) (c_remote cv) in
-  let l := override (h_dst h) (c_local cv) in
+Definition accepted_view (sets real : bool) (cv : cview) (h : hdr) (rest : list byte) : cview :=
+  let r := override (hdr_addr real (h_src h)) (c_remote cv) in
+  let l := override (hdr_addr real (h_dst h)) (c_local cv) in
   {| c_remote := r; c_local := l;
      c_repl_remote := if sets then r else c_repl_remote cv;
      c_repl_local := if sets then l else c_repl_local cv;
      c_stream := rest; c_ppvar := Some (r, l) |}.
 
-Lemma handle_accepts sets timeout rules cv h rest :
+Lemma handle_accepts sets real timeout rules cv h rest :
   new_conn timeout rules (c_remote cv) <> None -> parse (c_stream cv) = POk h rest ->
-  handle_with sets timeout rules cv = HNext (accepted_view sets cv h rest).
+  handle_with sets real timeout rules cv = HNext (accepted_view sets real cv h rest).
 Proof.
   intros Hn Hp. unfold handle_with. destruct (new_conn timeout rules (c_remote cv)); [|congruence].
   rewrite Hp. reflexivity.
 Qed.
-Lemma handle_rejects sets timeout rules cv :
+Lemma handle_rejects sets real timeout rules cv :
   new_conn timeout rules (c_remote cv) <> None -> (forall h rest, parse (c_stream cv) <> POk h rest) ->
-  handle_with sets timeout rules cv = HError.
+  handle_with sets real timeout rules cv = HError.
 Proof.
   intros Hn Hp. unfold handle_with. destruct (new_conn timeout rules (c_remote cv)); [|congruence].
   destruct (parse (c_stream cv)) eqn:E; [exfalso; exact (Hp _ _ eq_refl)| |]; reflexivity.
@@ -927,28 +927,28 @@ Proof.
   destruct (negb (is4 si) && negb (is4 di) && is16 si && is16 di); reflexivity.
 Qed.
 (* ---------- received header: stripped and honoured *)
-Lemma received_v1 render6 sets timeout rules cv h payload :
+Lemma received_v1 render6 sets real timeout rules cv h payload :
   ip6_text_ok render6 -> v1_wf h ->
   new_conn timeout rules (c_remote cv) <> None -> c_stream cv = encode_v1_with render6 h ++ payload ->
-  handle_with sets timeout rules cv = HNext (accepted_view sets cv (v1_hdr h) payload).
+  handle_with sets real timeout rules cv = HNext (accepted_view sets real cv (v1_hdr h) payload).
 Proof. intros H6 Hwf Hn Hs. apply handle_accepts; [exact Hn|]. rewrite Hs. apply parse_encode_v1_with; assumption. Qed.
 
-Lemma received_v1_no6 render6 sets timeout rules cv h payload :
+Lemma received_v1_no6 render6 sets real timeout rules cv h payload :
   (match h with V1Tcp6 _ _ _ _ => False | _ => True end) -> v1_wf h ->
   new_conn timeout rules (c_remote cv) <> None -> c_stream cv = encode_v1_with render6 h ++ payload ->
-  handle_with sets timeout rules cv = HNext (accepted_view sets cv (v1_hdr h) payload).
+  handle_with sets real timeout rules cv = HNext (accepted_view sets real cv (v1_hdr h) payload).
 Proof. intros H6 Hwf Hn Hs. apply handle_accepts; [exact Hn|]. rewrite Hs. apply parse_encode_v1_no6; assumption. Qed.
 
-Lemma received_v2 sets timeout rules cv h payload :
+Lemma received_v2 sets real timeout rules cv h payload :
   v2_wf h -> s_tlvs h = [] ->
   new_conn timeout rules (c_remote cv) <> None -> c_stream cv = encode_v2 h ++ payload ->
-  handle_with sets timeout rules cv = HNext (accepted_view sets cv (v2_hdr h) payload).
+  handle_with sets real timeout rules cv = HNext (accepted_view sets real cv (v2_hdr h) payload).
 Proof. intros Hwf Ht Hn Hs. apply handle_accepts; [exact Hn|]. rewrite Hs. apply parse_encode_v2; assumption. Qed.
 
-Lemma received_v2_tlv sets timeout rules cv h payload :
+Lemma received_v2_tlv sets real timeout rules cv h payload :
   v2_wf h -> s_tlvs h <> [] -> N.of_nat (length (block_bytes (s_block h) ++ tlvs_bytes (s_tlvs h))) < 65536 ->
   new_conn timeout rules (c_remote cv) <> None -> c_stream cv = encode_v2 h ++ payload ->
-  handle_with sets timeout rules cv = HError.
+  handle_with sets real timeout rules cv = HError.
 Proof.
   intros Hwf Ht Hl Hn Hs. apply handle_rejects; [exact Hn|]. intros h' rest. rewrite Hs, v2_tlv_rejected by assumption. discriminate.
 Qed.
@@ -979,13 +979,14 @@ Proof.
   destruct Hfam as [[F1 F2] | (F1 & F2 & G1 & G2)].
   - rewrite F1, F2 in Hup. cbn [andb] in Hup.
     destruct (is4_render ri F1 Hri) as (_ & B1 & N1). destruct (is4_render li F2 Hli) as (_ & B2 & N2).
-    unfold handle. rewrite (received_v1_no6 render_ip6 _ timeout rules cv2 (V1Tcp4 (as4 ri) (as4 li) rp lp) (c_stream cv)); [|exact I|cbn; tauto|exact Hn|symmetry; exact Hup].
+    unfold handle. rewrite (received_v1_no6 render_ip6 _ _ timeout rules cv2 (V1Tcp4 (as4 ri) (as4 li) rp lp) (c_stream cv)); [|exact I|cbn; tauto|exact Hn|symmetry; exact Hup].
     eexists. split; [reflexivity|]. rewrite sets_true, N1, N2. cbn. repeat split; reflexivity.
   - rewrite F1, F2, G1, G2 in Hup. cbn [andb negb] in Hup.
     destruct (not4_render ri F1 G1 Hri) as (a & -> & A1 & N1 & _). destruct (not4_render li F2 G2 Hli) as (b & -> & A2 & N2 & _).
     cbn [as16] in Hup.
-    unfold handle. rewrite (received_v1 render_ip6 _ timeout rules cv2 (V1Tcp6 a b rp lp) (c_stream cv)); [|exact (H6 F1)|cbn; tauto|exact Hn|symmetry; exact Hup].
-    eexists. split; [reflexivity|]. rewrite sets_true. cbn. repeat split; reflexivity.
+    unfold handle. rewrite (received_v1 render_ip6 _ _ timeout rules cv2 (V1Tcp6 a b rp lp) (c_stream cv)); [|exact (H6 F1)|cbn; tauto|exact Hn|symmetry; exact Hup].
+    eexists. split; [reflexivity|]. rewrite sets_true. unfold accepted_view, v1_hdr.
+    cbn [h_src h_dst c_remote c_local c_stream c_repl_remote c_repl_local]. rewrite N1, N2. cbn. repeat split; reflexivity.
 Qed.
 
 Lemma roundtrip_v2 cv proto ri rp li lp timeout rules cv2 :
@@ -1008,14 +1009,14 @@ Proof.
   - rewrite F1, F2 in Hup. cbn [andb] in Hup.
     destruct (is4_render ri F1 Hri) as (_ & B1 & N1). destruct (is4_render li F2 Hli) as (_ & B2 & N2).
     match type of Hup with encode_v2 ?hh ++ _ = _ =>
-      unfold handle; rewrite (received_v2 _ timeout rules cv2 hh (c_stream cv)); [|split; cbn; tauto|reflexivity|exact Hn|symmetry; exact Hup] end.
+      unfold handle; rewrite (received_v2 _ _ timeout rules cv2 hh (c_stream cv)); [|split; cbn; tauto|reflexivity|exact Hn|symmetry; exact Hup] end.
     eexists. split; [reflexivity|]. rewrite sets_true, N1, N2. unfold mk.
     destruct Hp as [-> | ->]; cbn; repeat split; reflexivity.
   - rewrite F1, F2, G1, G2 in Hup. cbn [andb negb] in Hup.
     destruct (not4_render ri F1 G1 Hri) as (a & -> & A1 & N1 & _). destruct (not4_render li F2 G2 Hli) as (b & -> & A2 & N2 & _).
     cbn [as16] in Hup.
     match type of Hup with encode_v2 ?hh ++ _ = _ =>
-      unfold handle; rewrite (received_v2 _ timeout rules cv2 hh (c_stream cv)); [|split; cbn; tauto|reflexivity|exact Hn|symmetry; exact Hup] end.
+      unfold handle; rewrite (received_v2 _ _ timeout rules cv2 hh (c_stream cv)); [|split; cbn; tauto|reflexivity|exact Hn|symmetry; exact Hup] end.
     eexists. split; [reflexivity|]. rewrite sets_true, N1, N2. unfold mk.
     destruct Hp as [-> | ->]; cbn; repeat split; reflexivity.
 Qed.
@@ -1425,14 +1426,37 @@ Proof.
   - unfold parse_ip. rewrite Hk, (parse_render_ip6 a Ha). reflexivity.
 Qed.
 
+(* ---------- a header that declares no address leaves the real ones in force *)
+Lemma real_true : l4proxyprotocol_undeclared_addr_falls_back = true.
+Proof. reflexivity. Qed.
+
+Lemma unknown_keeps_real_with sets timeout rules cv payload :
+  new_conn timeout rules (c_remote cv) <> None -> c_stream cv = encode_v1 V1Unknown ++ payload ->
+  exists v, handle_with sets true timeout rules cv = HNext v /\
+    c_remote v = c_remote cv /\ c_local v = c_local cv /\ c_stream v = payload.
+Proof.
+  intros Hn Hs. rewrite (received_v1_no6 render_ip6 sets true timeout rules cv V1Unknown payload I I Hn Hs).
+  eexists. split; [reflexivity|]. cbn. repeat split; reflexivity.
+Qed.
+Lemma unknown_keeps_real timeout rules cv payload :
+  new_conn timeout rules (c_remote cv) <> None -> c_stream cv = encode_v1 V1Unknown ++ payload ->
+  exists v, handle timeout rules cv = HNext v /\
+    c_remote v = c_remote cv /\ c_local v = c_local cv /\ c_stream v = payload /\
+    c_repl_remote v = c_remote cv /\ c_repl_local v = c_local cv.
+Proof.
+  intros Hn Hs. unfold handle. rewrite sets_true, real_true.
+  rewrite (received_v1_no6 render_ip6 true true timeout rules cv V1Unknown payload I I Hn Hs).
+  eexists. split; [reflexivity|]. cbn. repeat split; reflexivity.
+Qed.
+
 (* ---------- unconditional corollaries (the IPv6 text premise discharged) *)
 Lemma parse_encode_v1 h payload : v1_wf h -> parse (encode_v1 h ++ payload) = POk (v1_hdr h) payload.
 Proof. exact (parse_encode_v1_with render_ip6 h payload render_ip6_text_ok). Qed.
 
 Lemma received_v1_all timeout rules cv h payload : v1_wf h ->
   new_conn timeout rules (c_remote cv) <> None -> c_stream cv = encode_v1 h ++ payload ->
-  handle timeout rules cv = HNext (accepted_view l4proxyprotocol_handle_sets_placeholders cv (v1_hdr h) payload).
-Proof. exact (received_v1 render_ip6 _ timeout rules cv h payload render_ip6_text_ok). Qed.
+  handle timeout rules cv = HNext (accepted_view l4proxyprotocol_handle_sets_placeholders l4proxyprotocol_undeclared_addr_falls_back cv (v1_hdr h) payload).
+Proof. exact (received_v1 render_ip6 _ _ timeout rules cv h payload render_ip6_text_ok). Qed.
 
 Lemma roundtrip_v1_all cv ri rp li lp timeout rules cv2 :
   effective cv = (ATcp ri rp, ATcp li lp) -> ip_ok ri -> ip_ok li -> rp < two16 -> lp < two16 -> same_family ri li ->
